@@ -49,3 +49,7 @@ CLAIMS["C05"] = ("exploration",
 CLAIMS["C13"] = ("exploration",
     "Exhaustive key sequences over a 7-symbol alphabet incl. null, '', '|' and '__NULL__' tokens (1 level up to length 5/6, 2 levels up to length 3/4) at page capacities 2, 3, unbounded, plus Hypothesis-generated 1-3 level sequences up to 60 rows combined with page_by / subline_by and deliberately non-contiguous orders; reference model with null as a value for blanking, page-context restoration, forward-fill reconstruction and the ValueError contract. " + _EXPL,
     _READER, "property-based testing: exhaustive short key sequences + Hypothesis, reference suppression/rejection model")
+CLAIMS["C10"] = ("exploration",
+    "Exhaustive over all 1,111,998 Unicode scalar values except C0/C1 controls in the thorough tier (quick: all of U+0080-U+02FF, every plane/surrogate/0x7FFF boundary, the 682 LaTeX targets) as body cells at string boundaries, plus Hypothesis-generated mixed strings in every text-bearing position with conversion on and off; round-trip oracle on the BYTES written by write_rtf through the independent reader, plus lexical validity of every \\u escape and its fallback. " + _EXPL,
+    _READER + " \\ansi without \\ansicpg is read as Windows-1252.",
+    "property-based testing: exhaustive code-point enumeration + Hypothesis strings in all positions, byte-level round-trip oracle")
